@@ -629,6 +629,8 @@ func c16ACL(ctx *Ctx) error {
 	} else {
 		max, _ := strconv.Atoi(ctx.Arg("max", "1"))
 		all := c16Lists(max)
+		nbox := len(all)
+		all = append(all, c16StarLists(max)...) // not part of the exhaustive box
 		shard, shards := c16Shard(ctx)
 		for i, l := range all {
 			if i%shards == shard {
@@ -637,7 +639,8 @@ func c16ACL(ctx *Ctx) error {
 		}
 		ctx.Out.Stat("acl_lists_in_box", 0)
 		if shard == 0 {
-			ctx.Out.Stat("acl_lists_in_box", int64(len(all)))
+			ctx.Out.Stat("acl_lists_in_box", int64(nbox))
+			ctx.Out.Stat("acl_lists_star_shaped", int64(len(all)-nbox))
 		}
 		// sampled lists of size 3 (not part of the exhaustive box)
 		n3, _ := strconv.Atoi(ctx.Arg("sample3", "0"))
@@ -717,6 +720,9 @@ func c16Class(acl []C16AC, q c16Req) string {
 	n := c16Needed(q.Method)
 	granted := c16Granted(acl, q.dec(), n)
 	denied := c16Denied(acl, q.dec(), n)
+	if !granted && c16StarPrefixCovers(acl, q.dec()) {
+		return "non-trailing-star-treated-as-wildcard"
+	}
 	switch {
 	case granted && denied:
 		return "deny-overridden-by-allow"
@@ -759,6 +765,12 @@ func c16RunACL(ctx *Ctx, h *c16Hub, acl []C16AC, reqs []c16Req) (reboot bool, er
 	for _, a := range acl {
 		if a.Deny {
 			tags = append(tags, "has-deny")
+			break
+		}
+	}
+	for _, a := range acl {
+		if i := strings.Index(a.Resource, "*"); i >= 0 && i < len(a.Resource)-1 {
+			tags = append(tags, "star-not-trailing")
 			break
 		}
 	}
